@@ -51,17 +51,20 @@ def gen_cases(ctx):
                 pre = "".join(m["frag"] for m in ch["modules"][:j])
                 post = "".join(m["frag"] for m in ch["modules"][j + 1:]) + ch["vector"]["frag"]
                 mode = rng.choice(["upper", "upper", "lower-new", "random-new"])
-                newseq = new["seq"]
+                # every plasmid is read from a random origin, mostly inside its flanking structure
+                seqs = {id(m): gens.reorigin(rng, m) for m in mods1 + [new]}
+                vseq = gens.reorigin(rng, ch["vector"])
+                newseq = seqs[id(new)]
                 if mode == "lower-new":
                     newseq = newseq.lower()
                 elif mode == "random-new":
                     newseq = "".join(c.lower() if rng.random() < 0.5 else c for c in newseq)
                 cases.append({
                     "enz": enz["name"], "q": q, "pos": j, "mode": mode,
-                    "vector": {"cls": gens.generic_spec("vector", enz), "seq": ch["vector"]["seq"]},
-                    "modules1": [{"cls": gens.generic_spec("module", enz), "seq": m["seq"]} for m in mods1],
+                    "vector": {"cls": gens.generic_spec("vector", enz), "seq": vseq},
+                    "modules1": [{"cls": gens.generic_spec("module", enz), "seq": seqs[id(m)]} for m in mods1],
                     "modules2": [{"cls": gens.generic_spec("module", enz),
-                                  "seq": (newseq if m is new else m["seq"])} for m in mods2],
+                                  "seq": (newseq if m is new else seqs[id(m)])} for m in mods2],
                     "truth": {"pre": pre, "old": old["frag"], "new": new["frag"], "post": post},
                 })
     return cases
@@ -102,7 +105,7 @@ def oracle_pair(case):
 # ------------------------------------------------------------ driver side
 
 def run(ctx):
-    ctx.rule = ("one enzyme per geometry of the supported family; chains of 1-4 generated modules (+ an unused bystander "
+    ctx.rule = ("one enzyme per geometry of the supported family; every plasmid read from a random origin (75% inside its flanking structure); chains of 1-4 generated modules (+ an unused bystander "
                 "in 40%), each chain position replaced by a fresh module with the same overhangs, a target of another "
                 "length and another backbone, possibly in another letter case; shuffled argument order; every case is "
                 "non-trivial (two successful assemblies)")
